@@ -16,7 +16,7 @@ import tempfile
 from . import pyenv, ncchcommon as nc, savecommon as sv
 from .builders import exefs as XB, romfs as RB, pack as P
 
-READERS = ['romfs', 'exefs', 'ncch', 'ncch_special', 'ncch_plain', 'cia', 'cci', 'cdn', 'sdtitle', 'disa', 'diff', 'nand']
+READERS = ['romfs', 'exefs', 'exefs_lzss', 'ncch', 'ncch_special', 'ncch_plain', 'cia', 'cci', 'cdn', 'sdtitle', 'disa', 'diff', 'nand']
 WRAPPERS = ['w_ctr', 'w_twl', 'w_cbc', 'w_ctr_win', 'w_sub', 'w_merge', 'w_closewrap']
 SOURCES = ['obj', 'path', 'fs']
 CLOSEFD = [None, True, False]
@@ -42,6 +42,11 @@ def images():
     lv3, _ = RB.pack_lv3(tree)
     _cache['romfs'], _ = RB.wrap_ivfc(lv3)
     _cache['exefs'] = XB.build_exefs([('icon', b'\x01' * 0x36C0), ('banner', b'\x02' * 0x80), ('.code', b'\x03' * 0x123)])[0]
+    # a compressed .code: after decompress_code() the reader hands out '.code-decompressed' from memory
+    from .builders import lzss as LZ
+    plain = (b'abcabcabd' * 40 + bytes(range(64))) * 2
+    code = LZ.compress(plain, None, greedy=True)[0]
+    _cache['exefs_lzss'] = XB.build_exefs([('.code', code), ('banner', b'\x02' * 0x40)])[0]
     for special in (False, True):
         image, info, kwargs = nc.build(_ncch_spec(special))
         _cache['ncch_special' if special else 'ncch'] = image
@@ -150,6 +155,13 @@ def build(kind, source, closefd):
             r = sc.reader = ExeFSReader(f, **k, **kw)
             sc.handles['icon'] = r.open('icon')
             sc.handles['code'] = r.open('.code')
+        elif kind == 'exefs_lzss':
+            from pyctr.type.exefs import ExeFSReader
+            f, k = _source(sc, source, 'l.exefs', im['exefs_lzss'])
+            r = sc.reader = ExeFSReader(f, **k, **kw)
+            r.decompress_code()
+            sc.handles['code_dec'] = r.open('.code-decompressed')
+            sc.handles['banner'] = r.open('banner')
         elif kind in ('ncch', 'ncch_special', 'ncch_plain'):
             from pyctr.type.ncch import NCCHReader
             f, k = _source(sc, source, 'c.ncch', im[kind])
